@@ -43,6 +43,9 @@ Fixpoint spack (fmt : list fch) (args : list Z) : res (list byte) :=
   | _, _ => Err EStruct
   end.
 
+(* serialize_value's try/except: struct.error raised by a type writer becomes ValueError *)
+Definition wrap_struct {A} (r : res A) : res A := match r with Err EStruct => Err EValue | r => r end.
+
 (* struct.pack('<n>s', b): exactly n bytes — b cut, or padded with zero bytes; never an error for bytes *)
 Definition pack_s (n : nat) (b : list byte) : res (list byte) := Ok (firstn n (b ++ repeat x00 n)).
 
